@@ -594,3 +594,74 @@ def bound_sum(d, bound, n_len):
         else:
             out = out + base * as_poly(n_len)
     return out
+
+
+# ----------------------------------------------------------------------------- derived worlds
+
+
+def kill_k_times_zero_indicator(p):
+    """relation k_a * 1{k_a == 0} = 0"""
+    out = Poly()
+    for m, c in p.t.items():
+        zero_axes = set()
+        for a, e in m:
+            if a[0] == "ind" and a[1] == "eq" and a[3].is_zero() and len(a[2].t) == 1:
+                ((mm, cc),) = a[2].t.items()
+                if len(mm) == 1 and mm[0][0][0] == "k" and mm[0][1] == 1:
+                    zero_axes.add(mm[0][0])
+        if any(a in zero_axes and e > 0 for a, e in m):
+            continue
+        out = out + Poly({m: c})
+    return out
+
+
+def dc_component(p, n):
+    """value at the mean mode of a Fourier-space canonical form: k -> 0, F[q] -> Sum over the grid of q"""
+    N = Poly.sym("N")
+    q = specialize(p, "dc")
+
+    def f(a):
+        if a[0] == "F":
+            return sym_sum(a[1], (N,) * a[2])
+        if a[0] == "dc":
+            return Poly.atom(a[1])
+        return None
+
+    return alg.map_atoms(q, f)
+
+
+def constant_state(p, values, name="u"):
+    """evaluate a canonical form on a spatially constant state: u_c(x) = values[c].
+    I[m, u_c] (mean-free part) -> 0, Idc[u_c] -> values[c], F[1] -> N^D * delta_DC,
+    spectrum atom u_c^ -> values[c] * N^D * delta_DC"""
+    N = Poly.sym("N")
+
+    def f(a):
+        if a[0] == "I" and _only_state(a[2], name):
+            return Poly()
+        if a[0] == "Idc" and _only_state(a[1], name):
+            return _state_value(a[1], values, name)
+        if a[0] == "F" and a[1] == Poly.const(1):
+            return (N ** a[2]) * Poly.atom(("ind", "dc", a[2]))
+        return None
+
+    q = alg.map_atoms(p, f)
+    # forward transforms of (now) constant arguments
+    def g(a):
+        if a[0] == "F" and not any(varies(b) for b in a[1].atoms()):
+            return a[1] * (N ** a[2]) * Poly.atom(("ind", "dc", a[2]))
+        return None
+
+    return alg.map_atoms(q, g)
+
+
+def _only_state(X, name):
+    return len(X.t) == 1 and all(a[0] == "u" and a[1] == name for a in X.atoms()) and bool(X.atoms())
+
+
+def _state_value(X, values, name):
+    ((m, c),) = X.t.items()
+    r = Poly.const(c)
+    for a, e in m:
+        r = r * as_poly(values[a[2]]) ** e
+    return r
